@@ -1,4 +1,4 @@
-import FluteModel.Lemmas.SchedRRMulti
+import FluteModel.Lemmas.SchedRRAll
 /-
   C13 - Scheduling: FIFO admission, multiplex bound (strict priority and round robin: see below).
   Interleave window (`open blocks ≤ interleave_blocks`, opened in increasing SBN) is a property of one
@@ -48,6 +48,22 @@ theorem fifo_over_histories (cfg : Cfg) (tbl : List Nat) (ops : List Op) (prio n
       rw [List.pairwise_append] at hs
       have := (List.pairwise_cons.mp hs.2.1).1 a hm hfb hfa
       omega
+
+/-- FIFO including requeue, over whole histories: the relative order of waiting objects is never permuted.
+    `Ahead a b queue`: `a` is waiting and `b` is not ahead of it (`b` is behind `a`, or not waiting at all).  If this
+    holds after a history `ops`, then after ANY continuation `ops'` during which no transfer of `a` starts and `a`
+    is not removed (no `StartTransfer a` / successful `remove a` among the trace entries appended by `ops'`:
+    `badEv`), `a` is still waiting and still ahead of `b` - objects only leave the waiting queue or are appended at
+    its tail (`add_object`, requeue after a transfer: `fifo_add_at_tail`, `fifo_requeue_at_tail`).  With
+    `fifo_admission` (the first eligible object of the queue is started): within a priority queue transfers start in
+    the order in which the objects were (last) enqueued - additions and repeated transfers alike; an object is
+    passed over only while it is not eligible. -/
+theorem fifo_order_stable (cfg : Cfg) (tbl : List Nat) (ops ops' : List Op) (a b : Nat)
+    (h0 : Ahead a b (run (init cfg tbl) ops).queue)
+    (hclean : ((trace cfg tbl (ops ++ ops')).take
+      ((trace cfg tbl (ops ++ ops')).length - (trace cfg tbl ops).length)).any (badEv a) = false) :
+    Ahead a b (run (init cfg tbl) (ops ++ ops')).queue :=
+  order_stable cfg tbl ops ops' a b h0 hclean
 
 /-- the waiting queue is in insertion order: `add_object` appends at the tail -/
 theorem fifo_add_at_tail (s : State) (a : AddArgs) (s' : State) (toi : Nat)
@@ -122,8 +138,9 @@ theorem strict_priority_in_progress (cfg : Cfg) (tbl : List Nat) (ops : List Op)
   obtain ⟨h1, h2⟩ := read_due cfg tbl ops pre post q j c f now ticks hsess hjs hf hg hs hlt
   exact ⟨h1, fun p t i b e => prio_le_of_sorted cfg tbl ops pre post q hsorted hsess p (h2 p t i b e)⟩
 
-/-- Strict priority for WAITING objects, after every operation history: if priority queue `q` has a free slot and
-    `get_next_file_transfer(q.prio)` would start an object now (`findNext`: the first object of the waiting queue
+/-- Strict priority for WAITING objects, after every operation history: if priority queue `q` has an AVAILABLE slot
+    (`Avail`: empty, or holding a finished transfer - stopped or all packets sent, pacing gate open - which the poll
+    releases before it calls `get_next`) and `get_next_file_transfer(q.prio)` would start an object now (`findNext`: the first object of the waiting queue
     that `should_transfer_now` accepts - right priority, published (FullFDT), start time reached, not in transfer,
     count / carousel gap satisfied), then `read(now)` returns an FDT packet (e.g. the automatic publication of
     ObjectsBeingTransferred mode) or an object packet of priority `≤ q.prio` - never `None`, never a packet of a
@@ -133,27 +150,30 @@ theorem strict_priority_waiting (cfg : Cfg) (tbl : List Nat) (ops : List Op) (pr
     (j t : Nat) (now : Nat) (ticks : List (Nat × Nat))
     (hsorted : (cfg.queues.map (fun x => x.1)).Pairwise (fun a b => a < b))
     (hsess : (run (init cfg tbl) ops).sessions = pre ++ q :: post)
-    (hfree : q.slots[j]? = some none)
+    (curj : Option Cur) (hfree : q.slots[j]? = some curj) (hav : Avail (run (init cfg tbl) ops) now curj)
     (hfind : findNext (run (init cfg tbl) ops) q.prio now (run (init cfg tbl) ops).queue = some t) :
     (read (run (init cfg tbl) ops) now ticks).2 ≠ Out.none ∧
     ∀ p t i b, (read (run (init cfg tbl) ops) now ticks).2 = Out.pkt p t i b → p ≤ q.prio := by
-  obtain ⟨h1, h2⟩ := read_wait cfg tbl ops pre post q j t now ticks hsorted hsess hfree hfind
+  obtain ⟨h1, h2⟩ := read_wait cfg tbl ops pre post q j t now ticks hsorted hsess curj hfree hav hfind
     (fun u _ g hg _ hw => stale_run cfg tbl ops g (getF_mem hg) hw)
   exact ⟨h1, fun p t i b e => prio_le_of_sorted cfg tbl ops pre post q hsorted hsess p (h2 p t i b e)⟩
 
-/-- `q` has something READY at `now`: a transfer in one of its slots whose next packet is due, or a free slot and a
-    waiting object that `get_next_file_transfer` would start -/
+/-- `q` has something READY at `now`: a transfer in one of its slots whose next packet is due, or an available slot
+    (empty, or holding a finished transfer with an open gate) and a waiting object that `get_next_file_transfer`
+    would start -/
 def Ready (s : State) (q : QSess) (now : Nat) : Prop :=
   (∃ (j : Nat) (c : Cur) (f : FileDesc), q.slots[j]? = some (some c) ∧ getF s.objs c.key = some f ∧ gateBlocked f now = false ∧
     c.enc.stopped = false ∧ c.enc.sent < f.nPk) ∨
-  (∃ (j t : Nat), q.slots[j]? = some none ∧ findNext s q.prio now s.queue = some t)
+  (∃ (j t : Nat) (curj : Option Cur), q.slots[j]? = some curj ∧ Avail s now curj ∧
+    findNext s q.prio now s.queue = some t)
 
 /-- STRICT PRIORITY: after every operation history, while priority queue `q` has something ready (`Ready`: not
     waiting for its start time, a carousel delay, a pacing tick, a publication - and not behind the multiplex bound),
     `read` never returns `None` and never a packet of a queue of lower priority (`p ≤ q.prio`, smaller number =
     higher priority; FDT packets come first, C11).
     The literal clause of the property is stronger in one point and FALSE there: an eligible object that waits only
-    because every slot of its queue is occupied by pacing transfers is "ready" in the property's words but not
+    because every slot of its queue is occupied by PACING transfers (gate closed; a finished occupant counts as
+    available) is "ready" in the property's words but not
     `Ready` - lower-priority packets do go out then (finding F23, class `C13:hol-blocked-behind-paced-slot`). -/
 theorem strict_priority (cfg : Cfg) (tbl : List Nat) (ops : List Op) (pre post : List QSess) (q : QSess)
     (now : Nat) (ticks : List (Nat × Nat))
@@ -162,9 +182,9 @@ theorem strict_priority (cfg : Cfg) (tbl : List Nat) (ops : List Op) (pre post :
     (hready : Ready (run (init cfg tbl) ops) q now) :
     (read (run (init cfg tbl) ops) now ticks).2 ≠ Out.none ∧
     ∀ p t i b, (read (run (init cfg tbl) ops) now ticks).2 = Out.pkt p t i b → p ≤ q.prio := by
-  rcases hready with ⟨j, c, f, h1, h2, h3, h4, h5⟩ | ⟨j, t, h1, h2⟩
+  rcases hready with ⟨j, c, f, h1, h2, h3, h4, h5⟩ | ⟨j, t, curj, h1, h2, h3⟩
   · exact strict_priority_in_progress cfg tbl ops pre post q j c f now ticks hsorted hsess h1 h2 h3 h4 h5
-  · exact strict_priority_waiting cfg tbl ops pre post q j t now ticks hsorted hsess h1 h2
+  · exact strict_priority_waiting cfg tbl ops pre post q j t now ticks hsorted hsess curj h1 h2 h3
 
 /-- Work conservation (contrapositive of `strict_priority`, the liveness-flavoured reading): after every operation
     history, `read(now)` returns `None` ONLY IF no priority queue has anything ready at `now` - every transfer in a
@@ -239,29 +259,30 @@ theorem round_robin_partial (cfg : Cfg) (tbl : List Nat) (ops : List Op) (pre po
   read_rr cfg tbl ops pre post q j c f now ticks hsess hjs hf hg hs hlt p t i b hout
 
 /-- Round robin over CONSECUTIVE CALLS: after every operation history, let slot `j` of priority queue `q` hold a
-    transfer `c` whose packet is due at `now`.  If the next `k` calls of `read(now)` (any tick inputs) all return
-    object packets of `q`'s priority that are NOT `c`'s, then `k ≤ rrDist q.index j n ≤ n - 1`
-    (`AllOut P s now tks`: the outputs of the consecutive reads `tks` from `s` all satisfy `P`).  So between two
-    consecutive packets of one slot, a due peer slot of the queue is never passed over twice: in a run of packets of
-    the queue the due slot is served after at most `n - 1` peer packets - each peer at most once, since a peer that
-    has emitted becomes the farthest slot.
-    Scope: runs of calls that return packets of this queue.  A call that returns an FDT packet or a packet of a
-    higher-priority queue in between is not covered by this statement (it does not poll `q`, or polls it with an
-    FDT pending and leaves the index where it was - checked by the oracle `C13:round-robin` only). -/
+    transfer `c` whose packet is due at `now`.  Consider ANY sequence of further calls `read(now)` (any tick inputs)
+    none of which returns `c`'s packet (`AllOut`).  Then the number of calls among them that return a packet of a
+    PEER of `c` (same priority queue, other object: `peerCount`) is at most `rrDist q.index j n ≤ n - 1` - whatever
+    the other calls return: FDT packets and packets of higher-priority queues in between do not move the queue's
+    round-robin index (a poll that finds an FDT pending goes once around the slots and leaves the index where it
+    was), and the due transfer stays untouched.  So between two consecutive packets of one slot every due peer slot
+    is served, and no peer is served twice while a due slot waits (a peer that has emitted is the farthest slot).
+    (All calls at one instant `now`; "exactly once each" for several simultaneously due peers follows by applying
+    the statement to each of them.) -/
 theorem round_robin_over_calls (cfg : Cfg) (tbl : List Nat) (ops : List Op) (pre post : List QSess) (q : QSess)
     (j : Nat) (c : Cur) (f : FileDesc) (now : Nat) (tks : List (List (Nat × Nat)))
     (hsorted : (cfg.queues.map (fun x => x.1)).Pairwise (fun a b => a < b))
     (hsess : (run (init cfg tbl) ops).sessions = pre ++ q :: post)
     (hjs : q.slots[j]? = some (some c)) (hf : getF (run (init cfg tbl) ops).objs c.key = some f)
     (hg : gateBlocked f now = false) (hs : c.enc.stopped = false) (hlt : c.enc.sent < f.nPk)
-    (hall : AllOut (fun o => ∃ t i b, o = Out.pkt q.prio t i b ∧ t ≠ c.key) (run (init cfg tbl) ops) now tks) :
-    tks.length ≤ rrDist q.index j q.slots.length ∧ rrDist q.index j q.slots.length < q.slots.length := by
+    (hall : AllOut (fun o => ∀ i b, o ≠ Out.pkt q.prio c.key i b) (run (init cfg tbl) ops) now tks) :
+    peerCount q.prio c.key now (run (init cfg tbl) ops) tks ≤ rrDist q.index j q.slots.length ∧
+    rrDist q.index j q.slots.length < q.slots.length := by
   have hj : j < q.slots.length := by
     rcases Nat.lt_or_ge j q.slots.length with h | h
     · exact h
     · rw [List.getElem?_eq_none h] at hjs; cases hjs
   have hidx : q.index < q.slots.length := run_idx cfg tbl ops q (by rw [hsess]; simp)
-  exact ⟨rr_multi cfg tbl hsorted now post j c q.prio q.slots.length tks ops pre q f hsess rfl rfl hjs hf hg hs hlt hall,
+  exact ⟨rr_all cfg tbl hsorted now j c q.prio q.slots.length tks ops pre post q f hsess rfl rfl hjs hf hg hs hlt hall,
     rrDist_lt _ _ _ hidx hj⟩
 
 /-! non-vacuity: two objects multiplexed in one queue with 2 slots, a third one waiting -/
@@ -301,10 +322,23 @@ example : (getNextFile (run (init cfg2 [1]) [.add objLate, .add (obj 3), .publis
     fresh (run (init cfg2 [1]) [.add objLate, .add (obj 3), .publish 5]) 1 = true ∧
     fresh (run (init cfg2 [1]) [.add objLate, .add (obj 3), .publish 5]) 2 = true := by decide
 
-/-- non-vacuity of `round_robin_over_calls`: from the state of `hist`, slot 1 (TOI 2) is due and ONE call returns the
-    peer's (TOI 1) packet (`rrDist 0 1 2 = 1`); the second call returns TOI 2's -/
-example : AllOut (fun o => ∃ t i b, o = Out.pkt 0 t i b ∧ t ≠ 2) (run (init cfg2 [1]) hist) 5 [[]] ∧
+/-- non-vacuity of `round_robin_over_calls`: from the state of `hist`, slot 1 (TOI 2) is due; the first call returns
+    the peer's (TOI 1) packet - `peerCount` = 1 = `rrDist 0 1 2` - and the second call returns TOI 2's -/
+example : AllOut (fun o => ∀ i b, o ≠ Out.pkt 0 2 i b) (run (init cfg2 [1]) hist) 5 [[]] ∧
+    peerCount 0 2 5 (run (init cfg2 [1]) hist) [[]] = 1 ∧
     (∃ i b, (read (read (run (init cfg2 [1]) hist) 5 []).1 5 []).2 = Out.pkt 0 2 i b) := by
-  refine ⟨⟨⟨1, 1, false, by decide, by decide⟩, trivial⟩, ⟨1, false, by decide⟩⟩
+  refine ⟨⟨?_, trivial⟩, by decide, ⟨1, false, by decide⟩⟩
+  have : (read (run (init cfg2 [1]) hist) 5 []).2 = Out.pkt 0 1 1 false := by decide
+  intro i b e
+  rw [this] at e
+  cases e
+
+/-- non-vacuity of `fifo_order_stable`: in `hist` objects 1 and 2 transfer while object 3 waits; a fourth object
+    added afterwards is behind 3 and stays behind it over further reads -/
+example : Ahead 3 4 (run (init cfg2 [1]) (hist ++ [.add (obj 3)])).queue ∧
+    ((trace cfg2 [1] ((hist ++ [.add (obj 3)]) ++ [.read 5 [], .read 5 []])).take
+      ((trace cfg2 [1] ((hist ++ [.add (obj 3)]) ++ [.read 5 [], .read 5 []])).length -
+        (trace cfg2 [1] (hist ++ [.add (obj 3)])).length)).any (badEv 3) = false := by
+  refine ⟨⟨[], [4], by decide, by decide⟩, by decide⟩
 
 end Flute.Props.C13
